@@ -372,9 +372,9 @@ async fn bounded_search_over_histories() {
                 if !thorough {
                     for a in OPS { for b in pivots { for c in OPS { histories.push(vec![a, b, c]); } } }
                 } else {
-                    // thorough tier: every history of length 3, and length 4 with two interacting operations in the middle
+                    // thorough tier: every history up to length 4
                     for a in OPS { for b in OPS { for c in OPS { histories.push(vec![a, b, c]); } } }
-                    for a in OPS { for b in pivots { for c in pivots { for d in OPS { histories.push(vec![a, b, c, d]); } } } }
+                    for a in OPS { for b in OPS { for c in OPS { for d in OPS { histories.push(vec![a, b, c, d]); } } } }
                 }
                 for h in histories {
                     n += 1;
@@ -383,7 +383,7 @@ async fn bounded_search_over_histories() {
             }
         }
     }
-    println!("VERIF-BOUNDED test=bounded_search_over_histories evaluations={n} bound=2 creation policies x 2 missing-state policies x 4 first requests x every second-request history of 13 operations up to length {} ({} failing)", if thorough { "3, and length 4 around sync/cycle_id/delete/invalidate" } else { "2, and length 3 around sync/cycle_id/delete/invalidate" }, failures.len());
+    println!("VERIF-BOUNDED test=bounded_search_over_histories evaluations={n} bound=2 creation policies x 2 missing-state policies x 4 first requests x every second-request history of 13 operations up to length {} ({} failing)", if thorough { "4 (all of them)" } else { "2, and length 3 around sync/cycle_id/delete/invalidate" }, failures.len());
     assert!(failures.is_empty(), "{} failing histories, first 5:\n{}", failures.len(), failures.iter().take(5).cloned().collect::<Vec<_>>().join("\n"));
 }
 
